@@ -30,6 +30,10 @@ pub struct CrashCase {
     pub later_today: i32,
     pub cal: Calendar, // everything that will ever be published
     pub every: u32,    // byte offsets: every n-th (1 = all)
+    /// an EARLIER interrupted write of the same year (killed at this point of the write procedure,
+    /// always before the rename): it leaves a temporary file behind, which the interrupted write
+    /// under test finds
+    pub pre: Option<String>,
 }
 
 fn remote_at(cal: &Calendar, today: i32, year: i32) -> BTreeMap<i32, Vec<(i32, Decimal)>> {
@@ -61,7 +65,8 @@ pub fn gen_case(r: &mut Rng, idx: u64, thorough: bool) -> CrashCase {
     let later_today = today + *r.pick(&[0, 0, 1, 3, 9]);
     // a full year has ~6000 byte offsets: take every 5th one there (and every date only near the end)
     let every = if days > 100 { 5 } else { 1 };
-    CrashCase { year, old_today, today, later_today, cal, every }
+    let pre = if idx % 2 == 1 || r.chance(30) { Some(r.pick(&["after_create", "after_flush", "before_rename", "b5", "b17"]).to_string()) } else { None };
+    CrashCase { year, old_today, today, later_today, cal, every, pre }
 }
 
 fn remote_arg(m: &BTreeMap<i32, Vec<(i32, Decimal)>>) -> String {
@@ -188,13 +193,14 @@ pub fn run_case(id: &str, c: &CrashCase, out: &mut String) {
     let rem_new = remote_at(&c.cal, c.today, c.year);
     let rem_later = remote_at(&c.cal, c.later_today, c.year);
     out.push_str(&format!(
-        "case {} fxcrash year={} today={} later={} every={} old={}\n",
+        "case {} fxcrash year={} today={} later={} every={} old={} pre={}\n",
         id,
         c.year,
         c.today,
         c.later_today,
         c.every,
-        c.old_today.map(|t| t.to_string()).unwrap_or("-".to_string())
+        c.old_today.map(|t| t.to_string()).unwrap_or("-".to_string()),
+        c.pre.clone().unwrap_or("-".to_string())
     ));
     for (y, v) in &rem_new {
         out.push_str(&rem_line(*y, v));
@@ -212,6 +218,20 @@ pub fn run_case(id: &str, c: &CrashCase, out: &mut String) {
             out.push_str(&rem_line(*y, v).replacen("in rem", "in old", 1));
         }
         let _ = run_loader(&dir, t0, &rem_old, t0 - 1);
+    }
+    // an earlier interrupted write of the same data (leaves its temporary file, never the new file)
+    if let Some(p) = &c.pre {
+        let exe = std::env::current_exe().unwrap();
+        let (var, val) = match p.strip_prefix('b') {
+            Some(n) if n.chars().all(|ch| ch.is_ascii_digit()) => ("ACB_VERIF_CRASH_AFTER_BYTES", n.to_string()),
+            _ => ("ACB_VERIF_CRASH_AT", p.clone()),
+        };
+        let _ = Command::new(&exe)
+            .args(["fxcrash-child", dir.to_str().unwrap(), &c.today.to_string(), &target.to_string(), &remote_arg(&rem_new)])
+            .env(var, val)
+            .stdout(std::process::Stdio::null())
+            .stderr(std::process::Stdio::null())
+            .status();
     }
     let base = snapshot(&dir);
     // an uninterrupted write, to learn the length of the file
@@ -359,5 +379,6 @@ pub fn parse_case(lines: &[String]) -> Option<CrashCase> {
         later_today: kv("later")?.parse().ok()?,
         cal,
         every: kv("every").and_then(|v| v.parse().ok()).unwrap_or(1),
+        pre: kv("pre").and_then(|v| if v == "-" { None } else { Some(v) }),
     })
 }
